@@ -27,7 +27,9 @@ func C(wrap int, args ...interface{}) string {
 func C80(args ...interface{}) string { return C(80, args...) }
 
 func commentScanner(wrap int, args ...interface{}) *bufio.Scanner {
-	s := bufio.NewScanner(strings.NewReader(fmt.Sprint(args...)))
+	text := fmt.Sprint(args...)
+	s := bufio.NewScanner(strings.NewReader(text))
+	s.Buffer(make([]byte, 0, len(text)+1), len(text)+1) // never fail on a long word
 	s.Split(splitComment(wrap - 3))
 	return s
 }
